@@ -265,7 +265,7 @@ def _neighbours(op, a):
             used.sip(lambda: MeshPatt.of_length(n + 1), 2)
 
 
-_ONCE = ("stdhist", "validok", "moflenset")
+_ONCE = ("stdhist", "validok", "moflenset", "gendig")
 _GEN = ("oflen", "upto", "first", "moflen", "moflenset")
 _HEAVY = [False]
 
@@ -291,7 +291,22 @@ def impl(op, a):
 
 
 # ------------------------------------------------------------------ implementation
+def _digest(it):
+    """count, last element and rolling digest of a listing (same arithmetic as Driver.C09.digest)"""
+    h, c, last = 7, 0, ()
+    for p in it:
+        h = (h * 31) % 1000000007
+        for v in p:
+            h = (h * 31 + v + 1) % 1000000007
+        c += 1
+        last = tuple(p)
+    return "%d %s %d" % (c, fseq(last), h)
+
+
 def _impl(op, a):
+    if op == "gendig":
+        f = {"oflen": Perm.of_length, "upto": Perm.up_to_length}[a[0]]
+        return guarded(lambda: _digest(f(int(a[1]))))
     if op == "oflen":
         return guarded(lambda: fseqs(Perm.of_length(int(a[0]))))
     if op == "upto":
@@ -438,6 +453,12 @@ def is_perm(t):
 
 
 def oracle(op, a):
+    if op == "gendig":
+        n = int(a[1])
+        if n < 0:
+            return None
+        rng_ = range(n, n + 1) if a[0] == "oflen" else range(n + 1)
+        return _digest(t for k in rng_ for t in itertools.permutations(range(k)))
     lst, idx = all_perms()
     if op == "oflen":
         n = int(a[0])
@@ -550,6 +571,8 @@ def oracle(op, a):
 
 
 def nontrivial(op, a, out):
+    if op == "gendig":
+        return int(a[1]) >= 2
     if op in ("oflen", "upto", "ident"):
         return int(a[0]) >= 2
     if op in ("first", "rankunrank"):
@@ -643,6 +666,11 @@ def run(ctx):
     ks = set(range(0, 161)) | {o + d for o in offs for d in (-1, 0, 1) if 0 <= o + d <= total}
     ks |= {rng.randrange(total + 1) for _ in range(10 if quick else 60)}
     lines += ["first %d" % k for k in sorted(ks)]
+    # beyond the lengths whose listings are printed: count, last element and a rolling digest of the whole listing
+    # (a wrong entry in a table of counts, a level cut short or repeated shows here; seed C09-11)
+    for n in range(N + 1, (10 if quick else 11)):
+        lines += ["gendig oflen %d" % n, "gendig upto %d" % n]
+    lines += ["gendig upto 3", "gendig oflen 4"]
     ctx.compare("generators", lines)
 
     # ---- ranks
